@@ -248,11 +248,14 @@ class Program:
             body = txt_nc[m.end() - 1:match_close(txt_nc, m.end() - 1) + 1][1:-1]
             fs = []
             for part in split_top(body):
+                if re.search(r"#\[cfg\((?!not)", part):
+                    continue          # feature-gated field: all cargo features are off in every build used here
                 part = re.sub(r"#\[[^\]]*\]", "", part).strip()
                 fm = re.match(r"^(?:pub(?:\([^)]*\))?\s+)?(\w+)\s*:", part)
                 if fm:
                     fs.append(fm.group(1))
             self.structs.setdefault(m.group(1), fs)
+            self.structs[os.path.basename(rel) + ":" + m.group(1)] = fs      # disambiguation for names defined in several files
         for m in re.finditer(r"\bfn\s+(\w+)\s*<", txt_nc):
             try:
                 j = match_close(txt_nc, m.end() - 1)
